@@ -272,6 +272,21 @@ def run(ck, P):
     loops = [b for b in ms.blocks.values() if b.term and b.term.get("cond") is not None and "M_SRC_TYPE_END" in S(b.term["cond"]) or
              (b.term and b.term.get("cond") is not None and S(b.term["cond"]) == "(i < %d)" % E["M_SRC_TYPE_END"])]
     ck.ob("C09.5-STOP-DROPS", ms.site("all kinds"), bool(loops), "manage_srcs iterates over all %d source kinds" % E["M_SRC_TYPE_END"], nontrivial=False)
+    # no way round the loop: every return of manage_srcs is reached through the loop over the source kinds (an early return for some
+    # module state would leave that module's sources registered after stop)
+    okdom = bool(loops)
+    early = None
+    if loops:
+        hdr = loops[0].id
+        dom_ = ms.dominators()
+        for e in ms.events():
+            if e.kind == "ret" and hdr not in dom_[e.block.id]:
+                okdom = False
+                early = e
+    ck.ob("C09.5-STOP-DROPS", ms.site("no return round the loop"), okdom,
+          "every return of manage_srcs is dominated by the loop over the source kinds" if okdom else
+          "manage_srcs can return at line %s without iterating over the sources (under %s): stopping a module in that state drops none of its sources"
+          % (early.line if early else "?", fmt_facts(X.facts(ms, early)) if early else ""))
     for ev in P.calls_to("manage_srcs"):
         f = ev.fn
         fl, st = cval(ev.args[2]), S(ev.args[3])
@@ -351,6 +366,38 @@ def run(ck, P):
     mk = [e for e in sb.events() if e.kind == "assign" and S(e.lhs) == "mod->subscriptions" and strip(e.rhs).get("callee") == "m_map_new"]
     okm = bool(mk) and all((cval(strip(e.rhs)["args"][0]) or 0) & E["M_MAP_VAL_ALLOW_UPDATE"] and S(strip(e.rhs)["args"][1]) == "mem_dtor" for e in mk)
     ck.ob("C09.7-SUBSCRIPTIONS", sb.site("map allows update"), okm, "subscriptions map = %s" % [S(e.rhs) for e in mk])
+
+    # ------------------------------------------------------------------ 9. what the user asked for is what gets registered
+    ck.rule("C09.9-PASS-THROUGH", "R-PASS-THROUGH: every public m_mod_src_register_* hands its key and its flags argument to register_mod_src "
+            "unchanged (flags may be OR-ed with constants; an AND mask must keep every public m_src_flags bit): what is registered, "
+            "duplicated and later looked up is what the caller passed", floor=6)
+    PUB = 0
+    for k_, v_ in E.items():
+        if k_.startswith("M_SRC_") and not k_.startswith("M_SRC_TYPE_") and isinstance(v_, int) and k_ not in ("M_SRC_INTERNAL",):
+            PUB |= v_
+    for f in P.funcs:
+        if f.unit != SRC or not re.match(r"m_mod_src_register_\w+$", f.name):
+            continue
+        ck.analysed(f)
+        inner = [c for c in f.calls("register_mod_src")]
+        pn = [p_["name"] for p_ in f.params]
+        fname_ = [n_ for n_, p_ in zip(pn, f.params) if p_["t"].replace("const ", "") == "m_src_flags"]
+        okp = len(inner) == 1 and bool(fname_)
+        det = "no single call of register_mod_src"
+        if okp:
+            fe = strip(inner[0].args[3])
+            fs = S(fe)
+            fl_ok = fs == fname_[0]
+            if not fl_ok and fe["k"] == "bin" and fe["op"] in ("|", "&"):
+                l_, r_ = S(fe["l"]), cval(fe["r"])
+                if l_ == fname_[0] and r_ is not None:
+                    fl_ok = fe["op"] == "|" or (r_ & PUB) == PUB
+            up_ok = S(inner[0].args[4]) == pn[-1]
+            okp = fl_ok and up_ok
+            det = "flags handed on as '%s', userptr as '%s'" % (fs, S(inner[0].args[4]))
+            if not fl_ok:
+                det += ": user flags are altered before registration (public bits %#x must survive) — e.g. M_SRC_DUP is lost and the stored key aliases the caller's buffer" % PUB
+        ck.ob("C09.9-PASS-THROUGH", f.site("flags/userptr unchanged"), okp, det)
 
     # ------------------------------------------------------------------ 8. library-internal sources have a key space of their own
     keyspace_obligations(ck, P, X, "C09.8-INTERNAL-KEYSPACE", cmps, E)
